@@ -11,7 +11,7 @@ META={
    "Every registered detector, the un-sliced tree walk and Detect are driven with every seed at every prefix length, injected 32-bit field values, mutants and targeted arithmetic families (zip/CRX/OLE/Matroska/escape tails/small boxes/nesting bombs), each input ending exactly at an inaccessible page with cap == len, under 10 limits incl. 0 and 2^32-1; every string / byte literal of the tree under test (parsed from the source at run time) as input, splice fragment and tail; cut / valueless HTML and XML declarations; readers and files on a subset. A panic, a fault on the guard page, a nil result or a non-returning call is a violation."+HELD,
    "Trusted: Go runtime bounds checks, mmap/mprotect semantics, the watchdog thresholds (75 s stall, 90 s single case). linux/amd64 only."),
  "C02":M("exploration","C02","result-invariant monitor (written from the statement) over every (value, error) returned under hostile charset labels, all entry points, failing readers / seekers / files, strace-injected kernel faults (close/read EIO), extended trees",
-   "Every single byte 0x09-0xFF and runs over a hostile alphabet are spliced as charset labels into 9 declaration syntaxes; readers fail at every offset class, seekers fail, files are missing or directories; plus every seed prefix, mutants and generated documents. Each returned value is checked: String() parses, type registered, only charset on the three text types, finite bare registered ancestors ending at application/octet-stream, error => exactly application/octet-stream."+HELD,
+   "Every single byte 0x09-0xFF and runs over a hostile alphabet are spliced as charset labels into 9 declaration syntaxes; readers fail at every offset class with 19 classes of error values (incl. io.ErrUnexpectedEOF and wrapped io.EOF from the source itself), seekers fail, files are missing or directories; plus every seed prefix, mutants and generated documents. Each returned value is checked: String() parses, type registered, only charset on the three text types, finite bare registered ancestors ending at application/octet-stream, error => exactly application/octet-stream."+HELD,
    "Trusted: mime.ParseMediaType as the definition of validity; the snapshot hook for the set of registered names."),
  "C03":M("exploration","C03","online trace-specification checking of recorded detector-call events (instrumentation hook) + independent reference walk, also under a concurrent registrar / concurrent SetLimit",
    "All detector calls of each detection are recorded through a build-tagged hook (node, buffer pointer, len, limit, answer) and checked online against the first-match depth-first specification (no skip / backtrack / reorder, same header and limit everywhere, result chain = accepting path), then against an independent iterative walk, on the built-in tree and on trees enlarged by random Extend histories, with greybox input mutation keyed on new accept paths; through Detect, DetectReader (odd chunkings, shorter after longer inputs) and the direct match hook; also while other goroutines call SetLimit or Extend."+HELD,
@@ -20,7 +20,7 @@ META={
    "For every seed and limit class a sentinel error is injected at every byte offset 0..min(len, limit) (every k-th beyond 600 bytes) under 8 chunk schedules with (0,nil) reads, data+EOF and data+error returns; error values of 15 classes (deadline / context / closed pipe / errno / EOF look-alikes); the standard library's concrete readers; DetectFile over temp files, procfs files of stat size 0, sparse files of 2-8 GiB, missing path, directory, /proc/self/mem; limit changed during the read. Checked: same chain as Detect on the bytes, bytes consumed <= limit (all when 0), error => (application/octet-stream, that error) exactly when the reader really failed before the header was complete."+HELD,
    "Trusted: only conforming readers; io.ReadFull semantics for an error returned with the completing byte."),
  "C07":M("exploration","C07","independent byte-class oracle over injected inputs, every result of the real Detect/DetectReader observed",
-   "Every one of the 256 byte values is placed at every position of short text bases (inside, last-inside and just outside the examined header), BOMs / BOM prefixes / near misses are combined with binary bytes, and every corpus seed is run alone, BOM-prefixed, sanitised and re-injected; each real detection result is judged by a byte-class predicate written from the statement."+HELD,
+   "Every one of the 256 byte values is placed at every position of short text bases (inside, last-inside and just outside the examined header), BOMs / BOM prefixes / near misses are combined with binary bytes, and every corpus seed is run alone, BOM-prefixed, sanitised and re-injected; DetectFile on procfs files (stat size 0) and temp files; each real detection result is judged by a byte-class predicate written from the statement."+HELD,
    "Trusted: the hard-coded byte ranges / BOM table of the oracle."),
  "C08":M("exploration","C08","generated RFC 8259 documents (validated by encoding/json) detected at every cut point; oracle = membership in the JSON family with a priority-exception rule from the tree snapshot",
    "Random and hostile valid documents (strings starting/ending with structural characters, escapes, multi-byte runes, all number spellings, 3 whitespace layouts) are detected at EVERY limit from the opening bracket to len+1 and 0, long documents around the default limit, nesting ladders to 4096; entry points Detect / oddly chunked DetectReader / DetectFile, and a reader that changes the limit from inside Read."+HELD,
@@ -41,13 +41,13 @@ META={
    "Rectangular CSV/TSV tables and NDJSON streams are detected at EVERY limit from just past the second line to len; tables with one damaged complete line and line soups with malformed lines must not be reported."+HELD,
    "Trusted: refjson for per-line completeness; 'complete line' = newline-terminated inside a cut header; comment-line dialect per the converse clause."),
  "C14":M("exploration","C14","model-based checking of Extend histories (independent walk + harness-side extension list), Lookup and earlier-value checks, fresh-process histories, concurrent registration rounds",
-   "Thousands of random Extend histories (root, built-ins at any depth by name or alias, earlier extensions; 9 predicate kinds) are applied to the library and mirrored in the model; ~80 inputs x 3 limits per history are compared with the model and with the pre-history baseline, every name/alias is looked up (before and after registration; names and extensions are sometimes re-used; a registered name that is no longer found is a violation), values returned mid-history are re-read; a sample of histories runs in fresh processes without the reset hook."+HELD,
+   "Thousands of random Extend histories (root, built-ins at any depth by name or alias, earlier extensions; 9 predicate kinds) are applied to the library and mirrored in the model; ~80 inputs x 3 limits per history are compared with the model and with the pre-history baseline, every name/alias is looked up (before and after registration; names and extensions are sometimes re-used; a registered name that is no longer found is a violation), values returned mid-history are re-read; a sample of histories runs in fresh processes without the reset hook; detections go through Detect, oddly chunked DetectReader and DetectFile."+HELD,
    "Trusted: extension detectors shared with the model; the model's insertion rule is the statement's."),
  "C15":M("exploration","C15","exhaustive (format x name) matrix with random well-formed decorations against a 3-line normaliser; self-equality of every detection result",
    "Exhaustive format x registered-name matrix undecorated and with random case / whitespace / parameter decorations (quoted, RFC 2231), EqualsAny over decorated pairs, Lookup(a).Is(a) for every name and alias, and for detection results (incl. quoted / RFC 2231 charsets) d.Is(d.String()), EqualsAny, Lookup of the bare type, ancestors answering to their aliases; names registered at run time with alias slices whose spare capacity is watched for writes."+HELD,
    "Trusted: the normaliser; only well-formed, duplicate-free parameter lists are generated."),
  "C16":M("exploration","C16","fault isolation under debug.SetMaxStack(64 MiB) + per-goroutine stack-size monitor (MemStats.StackInuse with the goroutine parked) + verdict oracle",
-   "8 nesting shapes x depths to 10^6 (10^7 thorough) x closed/unclosed x 6 modes x 7 primer detections on the same pooled parser state (GOMAXPROCS=1, GC off). Stack overflow kills the child and is pinned; stack growth must plateau; anything nested deeper than 8192 must not be reported as JSON / NDJSON."+HELD,
+   "8 nesting shapes x depths to 10^6 (10^7 thorough) x closed/unclosed x 6 modes x 7 primer detections on the same pooled parser state (GOMAXPROCS=1, GC off); ~75 non-nesting units (BOMs, white space, markup openers, separators, magic numbers) and source literals repeated to 6 / 24 MiB. Stack overflow kills the child and is pinned; stack growth must plateau; anything nested deeper than 8192 must not be reported as JSON / NDJSON."+HELD,
    "Trusted: StackInuse deltas as the stack-size measure; plateau threshold max(4 x size at depth 8192, 8 MiB)."),
  "C17":M("exploration","C17","limit sweep per input (all limits to a dense bound, structural neighbourhoods beyond, 0 as largest) with a monotone class oracle",
    "Every seed, seeds with tails, mutants and structured inputs whose deciding bytes lie at offsets given by length fields (ID3, CRX, tar members, OLE, Matroska, zip, fixed-offset signatures) are detected at every limit; seeds' magic numbers followed by every literal of the signature packages (read from the tree under test); DetectReader with limits next to 2^32; once binary, every larger limit must be binary."+HELD,
@@ -56,13 +56,13 @@ META={
    "Random headers over USTAR/PAX/GNU (hostile names, base-256 ids and sizes, all type flags) written by archive/tar must be reported as tar unless a higher-priority root format matches; then all 504 x 255 single-byte corruptions outside the checksum field must not be tar."+HELD+" One known finding (gpkg exclusion) is replayed and listed.",
    "Trusted: archive/tar; names ending in /gpkg-1 are excluded from generation (KNOWN_FINDINGS)."),
  "C19":M("exploration","C19","archive/zip as writer AND reader: verdict predicted from the read-back entry list, 6 writer layouts per entry",
-   "Generated entry lists (OOXML bookkeeping, markers at positions 2-10, near misses, directory entries, JAR/APK/ODF/EPUB, unrelated) written with 6 per-entry layouts (descriptor / sizes, store / deflate, extra field, directories) incl. an aliasing body family; P1 P2 P3 N1 N2 and the application/zip parent are decided from zip.Reader's names."+HELD,
+   "Generated entry lists (OOXML bookkeeping, markers at positions 2-10, near misses incl. every marker in other letter cases, directory entries, JAR/APK/ODF/EPUB, unrelated) written with 6 per-entry layouts (descriptor / sizes, store / deflate, extra field, directories) incl. an aliasing body family; P1 P2 P3 N1 N2 and the application/zip parent are decided from zip.Reader's names."+HELD,
    "Trusted: archive/zip; P3 only for a stored mimetype entry without extra field; P1 only for exactly one kind of marker among entries 2-6."),
  "C04":M("exploration","C04","history differential against construction/oracle expectations with a fresh-process-per-probe baseline; pooled-state observation through a peek hook; read-only (mprotect) inputs; tail / spare-capacity poison differential; concurrent part under the race detector",
    "39 fixed and generated probes with expectations decided by construction are detected as the first and only call of a fresh process and after histories of 1-6 predecessor detections from 29 kinds (every ordered pair exhaustively) with GOMAXPROCS=1 and GC off so pooled state really is reused (observed through the pool-peek hook); all seeds are detected from read-only pages three times and with 5 different tails / spare-capacity contents beyond the limit; the workload is repeated on 12 goroutines under -race, and detections run while another goroutine alternates the limit between two values with the same sequential answer."+HELD,
    "Trusted: probe expectations (cross-checked by the fresh-process runs); sync.Pool reuse is observed, not forced."),
  "C06":M("exploration","C06","Go race detector over gated stress histories + linearizability checking (porcupine) of recorded call/return histories against register / set models + half-built and caller-array monitors",
-   "Thousands of short gated histories (14 goroutines: SetLimit and Extend writers with caller-owned alias slices of every shape, Detect/DetectReader/DetectFile readers on probes that reveal the limit used and the newest extension per parent, limit-sensitive ordinary inputs, Lookup + accessor calls) at GOMAXPROCS 2/4/8/16; race batches under -race (every DATA RACE block is a violation), every history checked per partition with porcupine (limit register incl. sequential table T[x][v], extension register per parent, set per name); looked-up formats must never be half-built and caller alias arrays never written."+HELD,
+   "Thousands of short gated histories (14 goroutines: SetLimit and Extend writers with caller-owned alias slices of every shape, Detect/DetectReader/DetectFile readers on probes that reveal the limit used and the newest extension per parent, limit-sensitive ordinary inputs, Lookup + accessor calls) at GOMAXPROCS 2/4/8/16; race batches under -race (every DATA RACE block is a violation), every history checked per partition with porcupine (limit register incl. sequential table T[x][v], extension register per parent, set per name); looked-up formats must never be half-built and caller alias arrays never written; one input slice detected by 6 goroutines at once (read-only mapping / race detector) and one returned value walked by 6 goroutines at once."+HELD,
    "Trusted: porcupine v1.3.0; monotonic clock for call/return stamps; schedules are sampled; limit and tree are independent registers."),
 }
 hooks_commits=subprocess.run(["git","-C","/repo","log","--format=%H","--grep=^verif:"],capture_output=True,text=True).stdout.split()
